@@ -10,19 +10,67 @@ sizes below 2^51 — assumption, exercised by the correspondence run).
 namespace C16
 open Py Spec Model
 
+/-- the serialisation, when it succeeds, is assembled from the same input and output blocks whatever the flag -/
+theorem toBytes_shape' (T : Tables) (t : Tx) (ins outs : Bytes)
+    (hins : concatM (t.inputs.map (TxIn.toBytes T)) = .ok ins)
+    (houts : concatM (t.outputs.map (TxOut.toBytes T)) = .ok outs) (seg : Bool) :
+    t.toBytes T seg = .ok (t.version ++ (if seg then [0x00, 0x01] else []) ++ compactSize t.inputs.length ++ ins ++
+        compactSize t.outputs.length ++ outs ++
+        (if seg then t.witnesses.flatMap (fun w => compactSize w.length ++ witnessBytes w) else []) ++ t.locktime) := by
+  simp only [Tx.toBytes, hins, houts, bind, Except.bind, pure, Except.pure]
+
+theorem toBytes_shape (T : Tables) (t : Tx) (s : Bytes) (hs : t.toBytes T false = .ok s) :
+    ∃ ins outs, concatM (t.inputs.map (TxIn.toBytes T)) = .ok ins ∧
+      concatM (t.outputs.map (TxOut.toBytes T)) = .ok outs ∧
+      s = t.version ++ [] ++ compactSize t.inputs.length ++ ins ++ compactSize t.outputs.length ++ outs ++ [] ++
+        t.locktime := by
+  unfold Tx.toBytes at hs
+  cases hi : concatM (t.inputs.map (TxIn.toBytes T)) with
+  | error e => simp [hi, bind, Except.bind] at hs
+  | ok ins =>
+    cases ho : concatM (t.outputs.map (TxOut.toBytes T)) with
+    | error e => simp [hi, ho, bind, Except.bind] at hs
+    | ok outs =>
+      simp only [hi, ho, bind, Except.bind, pure, Except.pure, Bool.false_eq_true, if_false] at hs
+      exact ⟨ins, outs, rfl, rfl, (Except.ok.inj hs).symm⟩
+
 /-- the reported size is the length of the full serialisation -/
 theorem size_eq (T : Tables) (t : Tx) (f : Bytes) (hf : t.toBytes T t.hasSegwit = .ok f) :
     t.size T = .ok f.length := by
-  sorry
+  simp only [Tx.size, hf, bind, Except.bind, pure, Except.pure]
 
 /-- vsize = ceil((3 * stripped size + full size) / 4), for any number and size of witness items -/
 theorem vsize_eq (T : Tables) (t : Tx) (s f : Bytes)
     (hs : t.toBytes T false = .ok s) (hf : t.toBytes T t.hasSegwit = .ok f) :
     t.vsize T = .ok ((3 * s.length + f.length + 3) / 4) := by
-  sorry
+  have hsize := size_eq T t f hf
+  unfold Tx.vsize
+  rw [hsize]
+  by_cases hseg : t.hasSegwit = true
+  · obtain ⟨ins, outs, hins, houts, e⟩ := toBytes_shape T t s hs
+    rw [hseg] at hf
+    have e2 := toBytes_shape' T t ins outs hins houts true
+    rw [hf] at e2
+    have e2 := Except.ok.inj e2
+    have ls := congrArg List.length e
+    have lf := congrArg List.length e2
+    simp only [List.length_append, if_true, List.length_cons, List.length_nil] at ls lf
+    simp only [hseg, bind, Except.bind, pure, Except.pure, Bool.not_true, Bool.false_eq_true, if_false]
+    congr 1
+    omega
+  · have hseg' : t.hasSegwit = false := by simpa using hseg
+    rw [hseg'] at hf
+    rw [hs] at hf
+    obtain rfl := Except.ok.inj hf
+    simp only [hseg', bind, Except.bind, pure, Except.pure, Bool.not_false, if_true]
+    congr 1
+    omega
 
 /-- for legacy transactions both coincide -/
 theorem vsize_legacy (T : Tables) (t : Tx) (h : t.hasSegwit = false) : t.vsize T = t.size T := by
-  sorry
+  unfold Tx.vsize
+  cases hsz : t.size T with
+  | error e => rfl
+  | ok n => simp only [h, bind, Except.bind, pure, Except.pure, Bool.not_false, if_true]
 
 end C16
